@@ -214,7 +214,7 @@ def rule_isnan_guard(ctx):
                           "isnan() on a sample is inside try/except TypeError: text curves pass through",
                           "`%s` is not protected against non-float samples: a text curve makes the export raise TypeError"
                           % unparse(c))
-    ctx.floor("EX.ISNAN-GUARD", 3)
+    ctx.floor("EX.ISNAN-GUARD", 1)
 
 
 def _branches(fi):
@@ -447,6 +447,27 @@ def rule_depth(ctx):
     ctx.check(not problems, "EX.DEPTH-TABLE", LF + ".read#unit-detection", fr, loop,
               "every spelling tabulated in DEPTH_UNITS is recognised (ASCII spellings in any case) and none is recognised as another unit",
               "; ".join(list(dict.fromkeys(problems))[:4]))
+    # the first curve is one of the items whose unit is compared, whenever there is a curve (not a fallback)
+    for s_ in ast.walk(fr.node):
+        if isinstance(s_, ast.Call) and isinstance(s_.func, ast.Attribute) and s_.func.attr == "append" and s_.args \
+                and isinstance(s_.args[0], ast.Subscript) and ast.unparse(s_.args[0].value).endswith("curves") \
+                and isinstance(s_.args[0].slice, ast.Constant) and s_.args[0].slice.value == 0:
+            extra = []
+            cur_ = getattr(s_, "_parent", None)
+            while cur_ is not None and cur_ is not fr.node:
+                if isinstance(cur_, (ast.If, ast.While, ast.IfExp)):
+                    lst = ast.unparse(s_.func.value)
+                    for x in ast.walk(cur_.test):
+                        # a condition on the header items collected so far / on their units (an explicit index_unit= option is fine)
+                        if isinstance(x, ast.Name) and x.id == lst:
+                            extra.append(x.id)
+                        if isinstance(x, ast.Attribute) and x.attr in ("unit", "well"):
+                            extra.append(x.attr)
+                cur_ = getattr(cur_, "_parent", None)
+            ctx.check(not extra, "EX.DEPTH-TABLE", LF + ".read#first-curve", fr, s_,
+                      "the first curve's unit is compared with STRT/STOP/STEP whenever a curve exists",
+                      "the first curve only joins the unit check under a condition on %s: a header/curve unit conflict (STRT.M with "
+                      "DEPT.FT) is no longer detected and the index unit silently follows the header" % sorted(set(extra)))
     # conflict -> None ; single -> that unit
     # the result goes to self.index_unit directly or through a result name (`self.index_unit = r`)
     rnames = {a.value.id for a in walk_shallow(fr.node) if isinstance(a, ast.Assign) and isinstance(a.value, ast.Name)
@@ -684,6 +705,37 @@ def rule_xlsx(ctx):
                 okcell = True
         if not okcell:
             problems.append("a sample is not written as '' when NaN and as the sample itself otherwise")
+        # the NaN decision belongs to the sample in hand: a flag tested in the loop is assigned in the same iteration on every
+        # path that reaches the test (exception edges included) - otherwise the previous sample's answer is reused
+        cfgx = build_cfg(p, fi)
+        heads = cfgx.nodes_for(lp)
+        if heads:
+            body_entry = [t for (t, lab) in cfgx.succ[heads[0]] if lab == "body"]
+            for tnode in cfgx.nodes:
+                if tnode.kind == "test" and isinstance(tnode.ast, ast.Name) and in_block(tnode.ast, lp.body):
+                    flag = tnode.ast.id
+                    defs_in = [n_.id for n_ in cfgx.nodes if n_.kind == "stmt" and isinstance(n_.ast, ast.Assign) and in_block(n_.ast, lp.body)
+                               and any(isinstance(t_, ast.Name) and t_.id == flag for t_ in n_.ast.targets)]
+                    # search: an assignment whose right-hand side raises has not assigned - follow only its 'exc' edge
+                    seen_, todo_ = set(), list(body_entry)
+                    reached = False
+                    while todo_:
+                        cur_ = todo_.pop()
+                        if cur_ in seen_ or cur_ == heads[0]:
+                            continue
+                        seen_.add(cur_)
+                        if cur_ == tnode.id:
+                            reached = True
+                            break
+                        for (t_, lab_) in cfgx.succ[cur_]:
+                            if cur_ in defs_in and lab_ != "exc":
+                                continue
+                            todo_.append(t_)
+                    for be in ([body_entry[0]] if reached and body_entry else []):
+                        if True:
+                            problems.append("the flag `%s` can be tested without having been set for the current sample (e.g. after "
+                                            "isnan() raised TypeError on a text sample): the previous sample's NaN answer is reused and "
+                                            "text cells after a NaN are written empty" % flag)
     ctx.check(not problems, "EX.XLSX-SECTIONS", fi.qual, fi, fi.node,
               "Header sheet: four sections x (section, mnemonic, unit, value, descr); Curves sheet: mnemonic row, samples, NaN -> ''",
               "; ".join(problems))
